@@ -8,65 +8,80 @@ import subprocess
 
 VERIF = os.path.dirname(os.path.dirname(os.path.abspath(__file__)))
 
-S0 = '''## 0. Summary table (as built)
+def _load(name):
+    import importlib.util
+    spec = importlib.util.spec_from_file_location(name, os.path.join(VERIF, name + '.py'))
+    mod = importlib.util.module_from_spec(spec); spec.loader.exec_module(mod)
+    return mod
 
-| id  | claimed | deciding step (units under `/verif/units`) | level | genuine defects the contracts exposed on the pinned tree |
-|-----|---------|---------------------------------------------|-------|----------------------------------------------------------|
-| C01 | yes | Verus: `c01_compose` (machine-checked glue: `theorem_lossless` over the interface predicates of the three units), `c01_reader` (Reader + the whole real lexer: tokens tile the text), `c01_parser` (driver + Marker API + `parse_chunk` loop: every token emitted once, in order), `c01_green` (tree builders hand exactly those ranges to rowan, for every event list); bounded search on the real parser when a unit is undecided | proof (doc-comment re-lexing, grammar frame, rowan assumed) | NUL treated as end of input (fixed `69919c1`); `finish()` kept only the first top-level element (fixed `1343370`) |
-| C02 | yes, reduced scope | same three units: panic-freedom + `decreases` of lexer, driver, marker, builders | proof for those stages; recursion depth / grammar panics **not covered** | latent: `LuaParser::bump` at end of input indexes out of bounds (API-level, unreachable through the grammar; recorded, not fixed) |
-| C09 | yes | Verus: `c09_clear` (generated from the struct definitions: `new`/`clear` of all 14 indexes + `DbIndex::clear` establish `fresh_*`), `c09_reindex` (`reindex` = clear, then update with **every** Vfs file id), `c22_vfs` (a re-submitted text is always re-parsed under the current configuration) | proof | `LuaMemberIndex::clear` kept `member_current_owner` (fixed `01e21e6`) |
-| C10 | yes, partial | Verus: `c10_remove` (`remove` of decl / dependency / diagnostic / flow / signature / property indexes, per-file maps of the reference index, `DbIndex::remove` delegation), `c22_vfs` (`Vfs::remove_file`, withdrawal of a text, a submitted uri stays addressable) | proof for those indexes and the Vfs; module/member/type/operator/metatable/global **not covered** | documents without a file path leaked a copy per edit and could not be removed (fixed `455b3ae`) |
-| C19 | yes | Verus `c19_match` (+ Kani on the compiled real crate, thorough tier and for counterexamples), scope slices of `diagnostic_tags.rs` in `c22_lineindex`, code-list handling of the four `analyze_diagnostic_*` functions in `c20_inputs`, `DiagnosticIndex::remove` in `c10_remove`; bounded search `replay/c19` when undecided | proof | touching ranges matched (fixed `65c9cea`) |
-| C20 | yes | Verus `c20_config` (precedence chain, `add_diagnostic`, `get_severity`, `diagnose_file`), `c20_inputs` (`LuaDiagnosticConfig::new` builds exactly the configured sets/maps), `DiagnosticIndex::remove` in `c10_remove` | proof | — |
-| C21 | yes, partial | labels `C21.*` in `c22_lineindex` (`to_lsp_range`, `translate_range`) and `c20_config` (`add_diagnostic` fields, "enabled ⇒ reported", parse-error loop of `SyntaxErrorChecker::check`) | proof for those clauses | — |
-| C22 | yes | Verus `c22_lineindex` (all of `LineIndex`, the `LuaDocument` conversions, `lemma_round_trip`), `c22_vfs` (the Vfs pairs every text with the LineIndex parsed from it), Kani cross-check of the text-size shim (thorough), bounded search on the real code when undecided | proof | `get_offset` did not clamp to the line (fixed `c8fa1d8`) |
-| C23 | yes | `c23_encoding` = `c22_lineindex` re-instantiated with UTF-16 column weight and LSP line terminators; known findings **pinned** by `c22_lineindex` | proof of "exactly the two recorded deviations" | columns count scalar values; lone `\\r` is no line break — **open known findings** (§7) |
-| C25 | yes, narrow | labels `C25.*` in `c22_lineindex` + unchecked inventory of `token_at_offset` call sites | proof of the offset-in-document lemma | (the unguarded call sites are made safe by the C22 repair) |
-| C26 | yes, partial | Verus `c26_semantic_tokens` (legend indices, modifier bits, delta encoding, multi-line split) | proof for the semantic-token sentence | — |
-| C31 | yes, narrow | Verus `c31_path` (slice of `pre_process_path`); bounded search `replay/c31` over generated path strings and config files (thorough tier / when undecided) | proof of the path-expansion clause; flatten / Lua loader only by the bounded search | `&path[2..]` after `~` panicked / ate a character (fixed `0e27e3d`); a key that is both a value and a prefix panicked the loader (fixed `05cb49f`) |
-| C36 | yes, partial | Verus `c36_exit` (slices of `output_result`, `DiagnosticSeverityFilter::allows`) | proof for the exit-status / filter sentences | — |
-| C38 | yes, static half | rustc trait solver on a workspace copy with every `unsafe impl Send/Sync` stripped (`vc/c38.py`) | proof (type level) | `LuaAstPtr<T>` was `Send + Sync` only by `unsafe impl` (fixed `712304c`) |
-| C03–C08, C11–C18, C24, C27–C30, C32–C35, C37, C39–C41 | n/a | — | — | see §6 |
 
-14 properties are claimed (several at a stated reduced scope), 27 are `not_applicable` (§6).
-'''
+def _cell(t):
+    return ' '.join(str(t).replace('|', '/').split())
 
-S7 = '''## 7. Genuine defects found, and what was done
 
-Every entry below was first reported by a check as a failed obligation on the pinned tree, then shown on the real code
-(Kani counterexample replayed, replay driver, or demonstration test), then repaired by one minimal `fix:` commit in
-`/repo` with the unedited baseline (2010 tests) green. `known_findings.json` carries a `fixed:` record for each; a fixed
-record suppresses nothing.
+def section0():
+    props = _load('props').PROPS
+    na = _load('na').NOT_APPLICABLE
+    known = json.load(open(os.path.join(VERIF, 'known_findings.json')))['findings']
+    ids = [json.loads(l)['id'] for l in open(os.path.join(VERIF, 'properties.jsonl'))]
+    out = ['## 0. Summary table (as built; generated from props.py, na.py and known_findings.json by tools/design_sections.py)', '',
+           '| id | deciding units (`/verif/units`) and engines | bounded searches (never counted as proved) | defects exposed: fixed / open | not covered (see MANIFEST level_note) |',
+           '|----|------------------------------------------|---------------------------------------------|------------------------------|---------------------------------------|']
+    for pid in ids:
+        if pid not in props: continue
+        pc = props[pid]
+        units = ', '.join('`%s`%s' % (u['unit'], ' (pin)' if u.get('role') == 'pin' else '') for u in pc.get('units', []))
+        eng = ', '.join(e['kind'] + ('/' + e['crate'] if e.get('crate') else '') for e in pc.get('engines', []))
+        reps = ', '.join(sorted({'`%s`%s' % (r['driver'], '' if (r.get('quick') or r.get('thorough') or r.get('on_undecided')) else ' (witness only)') for r in pc.get('replays', [])}))
+        fx = [k.get('commit') for k in known if k['property'] == pid and k['status'] == 'fixed']
+        op = [k for k in known if k['property'] == pid and k['status'] == 'open']
+        out.append('| %s | %s%s | %s | %s | %s |' % (pid, units or '-', ('; ' + eng) if eng else '', reps or '-',
+                                                 (('fixed: ' + ', '.join('`%s`' % c for c in fx)) if fx else '-') + (('; OPEN: %d' % len(op)) if op else ''),
+                                                 _cell('; '.join(pc.get('not_covered', [])))[:400]))
+    out.append('')
+    out.append('%d properties are claimed (several at a stated reduced scope, see each check\'s `level_text` / `level_note` in MANIFEST.json), %d are `not_applicable` (section 6).'
+               % (len([i for i in ids if i in props]), len([i for i in ids if i in na])))
+    return '\n'.join(out) + '\n'
 
-| property | obligation that failed | witness on the real code | repair |
-|----------|------------------------|--------------------------|--------|
-| C19 | `DiagnosticAction::is_match … [C19.match.only-inside-scope]` | Kani: region `[u32::MAX,u32::MAX)` / diagnostic `[u32::MAX,u32::MAX)` → `is_match == true` (also `[0,10)` vs `[10,12)`), replayed by `kani/c19` `replay` | `65c9cea` non-empty overlap, or containment for zero-width diagnostics |
-| C38 | rustc goals `LuaCompilation / DbIndex / EmmyLuaAnalysis: Send + Sync` with `unsafe impl`s stripped | rustc E0277: `NonNull<rowan::cursor::NodeData>` inside `LuaAstPtr<T>`'s `PhantomData<T>` | `712304c` `PhantomData<fn() -> T>`, both `unsafe impl`s removed |
-| C09 | `LuaMemberIndex::clear … [C09.LuaMemberIndex.clear-is-fresh]` | `replay/c09`: after `clear_index()` 3 of 3 old member ids still have a current owner | `01e21e6` clear `member_current_owner` too |
-| C22 | `LineIndex::get_offset … [C22.offset.in-line-clamped]` (and the `get_col_offset_at_line` twin) | `"ab\\ncd"`, line 1, col 9 → 12 > 5; non-ASCII path walks over the newline | `c8fa1d8` clamp both paths to the end of the line's content |
-| C01 | `Reader::bump/is_eof … [C01.reader.*]` | `replay/c01`: `"a\\0b"` → tree text `"a"` | `69919c1` end of input decided by position |
-| C01 | `LuaGreenNodeBuilder::finish … [C01.finish.emits-all-tokens]` | `"x--region\\n;"`, `"{;do"`, `"{,end"` lose their suffix (7746 of 400 000 soup inputs) | `1343370` wrap all top-level elements in the `Chunk` root |
-| C31 | slicing precondition of `&path[2..]` in the `~` branch | `replay/c31`: `workspaceRoots ["~"]`, `["~é"]` panic in `Emmyrc::pre_process_emmyrc`; `"~foo"` became `home/oo` | `0e27e3d` skip `~` and separators |
-| C31 | `bounded-search:replay/c31` (thorough tier; the flatten code is outside the functions under contract) | `.luarc.json` `{"runtime.version": "Lua5.1", "runtime": 3}` merged after a valid `.emmyrc.json`: `load_configs` panics (`IndexMut` on a non-object / `expect("always an object")`, hash-order dependent) | `05cb49f` the nested form wins, the scalar is dropped |
-| C10 | `Vfs::set_file_content / file_id … [C10.vfs.submitted-uri-resolves-to-its-id]` | `replay/c10_vfs`: `untitled:Untitled-1` opened, changed, closed: two analysed copies remain, `remove_file_by_uri` returns `None` | `455b3ae` one id per pathless uri (kept in `remote_file_id_map`), `get_file_id` resolves it, `remove_file` releases it |
 
-**Open known findings (recorded, not repaired)** — C23, both pinned by unit `c22_lineindex` (which proves that the code
-does exactly what the finding says, so that any *other* deviation is still reported):
+def section6():
+    na = _load('na').NOT_APPLICABLE
+    ids = [json.loads(l)['id'] for l in open(os.path.join(VERIF, 'properties.jsonl'))]
+    out = ['## 6. Not applicable (goes to `MANIFEST.json: not_applicable`; generated from na.py)', '']
+    for i in ids:
+        if i in na: out.append('* **%s** %s' % (i, na[i]))
+    return '\n'.join(out) + '\n'
 
-* columns are counted in Unicode scalar values, not UTF-16 code units: `LineIndex::get_line_col("😀x", 4) == (0,1)`,
-  the LSP says `(0,2)` (`replay/c23`);
-* a lone `\\r` is not a line terminator and the `\\r` of `\\r\\n` counts as a character: `LineIndex::parse("a\\rb")
-  .line_count() == 1`.
 
-Why not repaired: the repair changes the meaning of every `LineIndex`/`LuaDocument` column and line number for all
-internal consumers (formatter, doc generator, checker output); the right place is the LSP boundary, which is not a small
-patch.
+def section7():
+    known = json.load(open(os.path.join(VERIF, 'known_findings.json')))['findings']
+    out = ['## 7. Genuine defects found, and what was done (generated from known_findings.json)', '',
+           'Every *fixed* entry was first reported by a check as a failed obligation (or, where stated, by a bounded search of the thorough tier)',
+           'on the tree as it was, then shown on the real code (Kani counterexample, replay driver or demonstration), then repaired by one minimal',
+           '`fix:` commit in `/repo` with the unedited baseline green. A fixed record suppresses nothing: the obligation is required to hold.', '',
+           '| property | commit | obligation (regex) | what failed |', '|----------|--------|--------------------|-------------|']
+    for k in known:
+        if k['status'] != 'fixed': continue
+        out.append('| %s | `%s` | `%s` | %s |' % (k['property'], k.get('commit'), _cell(k['obligation'])[:110], _cell(k['what'].split(k.get('commit', '~~'))[-1])[:520]))
+    out += ['', '**Open known findings (recorded, not repaired; the check prints `KNOWN-FINDING` for each and still reports every other violation):**', '']
+    for k in known:
+        if k['status'] != 'open': continue
+        out.append('* **%s** %s  \n  *why not repaired:* %s' % (k['property'], _cell(k['what'])[:700], _cell(k.get('why_not_fixed', ''))[:500]))
+    out += ['', OBSERVATIONS]
+    return '\n'.join(out) + '\n'
 
-Seen while proving, outside every claimed contract, therefore neither findings nor repaired: `LuaParser::bump()` called
-again at end of input indexes `tokens[len]` (every grammar call site is guarded); `mark_level` drifts upward on empty
-nodes; the module-tree leak of `LuaModuleIndex::remove`; the flat-key collision panic of `.luarc.json` loading;
-`Vfs::remove_file` leaves `remote_file_id_map` entries.
-'''
+
+OBSERVATIONS = '''**Seen while proving, outside every claimed clause (neither findings nor repaired):** `LuaParser::bump()` called again at end of
+input indexes `tokens[len]` (every grammar call site is now PROVED to be guarded: unit c02_grammar); `parse_stats` would loop forever on a
+token stream containing `TkContinue` / `TkConst` tokens (the lexer is proved never to produce them); in the doc grammar `complete` of an empty
+node does not decrement `mark_level`, so after `---@type fun(a: ...` at the end of a comment the recovery loop of `parse_tag` emits one
+`NodeEnd` too many (lossless, no crash, malformed nesting); re-submitting an unchanged file moves it behind other files registered under
+the same module name, so `require "a"` can switch from `a.lua` to `a/init.lua` (lemma_resubmission_changes_choice, unit c10_module);
+a file without a module entry (remote document, or outside every root) is never marked meta by `---@meta`; `get_document_lsp_range`
+ends at `(line_count, 0)`, one line past the last line; a `diagnose_file` panic inside a spawned task of `emmylua_check` is swallowed
+(the file is silently missing from the report); facts that other files derived from a removed file stay until those files are
+re-analysed (`remove_file_by_uri` re-analyses nothing).'''
+
 
 S10 = '''## 10. Changes to the machinery (log)
 
@@ -110,6 +125,30 @@ S10 = '''## 10. Changes to the machinery (log)
   compile errors of an assembled unit are classified *undecided*, never as failed obligations.
 * **Kani for container code** stays dropped (compiler ICE on hashbrown/serde_json, §2.6). No bounded stand-in is
   counted as proved anywhere; the only bounded artefacts are the witness searches, labelled as such.
+* **Second session (units c02_*, c10_module, c10_writers, c13_*, c16_*, c24_*, c25_sites, c26_locations, c32_merge, c35_export,
+  c36_channel, c39_*):** the assumed contracts of the first session were discharged one by one - the whole Lua grammar
+  (`c02_grammar`: 53 fns, built by `units/c02_grammar/build.py` on top of `c01_parser`'s items with the hand-written `parse_stats`
+  shim cut out; `c02_gexpr` / `c02_gstat` are the modular halves with the other side assumed under the identical contract text), the
+  whole doc grammar (`c02_gdoc`, subsumes `c01_doc`), the lexer fact the grammar needs (`no_soft_kinds`), the index writers
+  (`c10_writers`), the module tree (`c10_module`), the token_at_offset call sites (`c25_sites`: the syntactic scan became 16 proof
+  obligations), the task/channel bookkeeping of `emmylua_check` (`c36_channel`, tokio abstracted by the named `async-seq-*` rules).
+  Properties C32, C33 (partial), C35 moved from not-applicable to claimed after their deciding layer turned out to be expressible
+  (serde_json `Value` as a shimmed data type with a `final(..)` prophecy for the `&mut` cursor; iterator pipelines desugared by
+  mechanical rules; hash-order independence as "the result is the canonical listing of the map's contents").
+* **Rule tables are per unit** (`vc/assemble.py`): `extra_rules` of a unit no longer enter the global catalogue - two units used the
+  name `drop-log` for different rewrites and were assembled concurrently by one check (C31 went undecided; found by `run_all`).
+* **C38 dynamic half**: `NoInteriorMut` auto-trait goals (nightly `auto_traits` / `negative_impls`, thorough tier: the cold build of the
+  dependency graph on nightly takes ~7 min) + bounded stress search `replay/c38` (both tiers). A failed `NoInteriorMut` goal is
+  *undecided* (a transparent cache would keep the property), only a schedule-dependent answer exhibited by the stress search is a violation.
+* **`tools/seed.py detect`** works in its own worktree and build directory (`VERIF_REPO`, `VERIF_BUILD`, `VERIF_REPLAYS_DIR`,
+  `VERIF_EVIDENCE_DIR`): neither `/repo` nor `evidence/` is touched by a seeded-change run, so proof agents can read `/repo` meanwhile.
+* **Bounded searches may pin open findings themselves** (`replay/c10_trace --known <file>` prints `KNOWN ...` and goes on); the driver
+  requires every such line to be described by an open entry of `known_findings.json` (`witness_pattern`) and prints `KNOWN-FINDING`
+  for it; an unlisted `KNOWN` line is a violation. `replay/c01` has a hang watchdog (a parse running > 20 s is a failing input).
+* **Slice anchors are structural where a mutation showed them brittle**: the end anchor of the `analyze_doc_tag_meta` slice was the very
+  statement an independent reviewer deleted (check went undecided instead of failing); it is now the end of the enclosing block.
+  Where a refactor still detaches an overlay (exit 2), the property's bounded search on the real code is the fallback
+  (`replay/c20`, `replay/c26`, `replay/c36`, `replay/c10_trace`), labelled bounded.
 * Proof engineering of the larger units (`c22_lineindex`, `c01_*`, `c26_semantic_tokens`) was done by sub-agents
   working in private worktrees under the rules of `units/README.md`; their contracts were reviewed against the property
   statements and every unit is re-run against `/repo` by the checks.
@@ -155,13 +194,14 @@ def main():
         if m:
             return s[:m.start()] + new.rstrip() + '\n' + sep + s[m.end():].lstrip('-\n')
         return s.rstrip() + '\n' + sep + new
-    s = replace_section(s, 0, S0)
-    s = replace_section(s, 7, S7)
+    s = replace_section(s, 0, section0())
+    s = replace_section(s, 6, section6())
+    s = replace_section(s, 7, section7())
     s = replace_section(s, 10, S10)
     s = replace_section(s, 11, seeded_table())
     s = re.sub(r'(\n-{90,}\n){2,}', '\n---------------------------------------------------------------------------------------------------\n', s)
     open(p, 'w').write(s)
-    print('DESIGN.md sections 0, 7, 10, 11 rewritten')
+    print('DESIGN.md sections 0, 6, 7, 10, 11 rewritten')
 
 
 if __name__ == '__main__':
